@@ -12,7 +12,9 @@ use std::sync::atomic::{AtomicBool, AtomicU64, Ordering};
 use std::sync::Mutex;
 use std::time::{Duration, Instant};
 
-pub const VERIF_DIR: &str = "/verif";
+pub fn verif_dir() -> String {
+    std::env::var("VERIF_DIR").unwrap_or_else(|_| "/verif".to_string())
+}
 
 #[derive(Clone, Copy, PartialEq, Eq, Debug)]
 pub enum Tier {
@@ -305,10 +307,10 @@ pub struct Engine {
 
 impl Engine {
     pub fn new(id: &'static str, level: &'static str, tier: Tier, seed: u64) -> Engine {
-        let replay_dir = std::env::var("VERIF_REPLAY_DIR").unwrap_or_else(|_| format!("{}/replays", VERIF_DIR));
+        let replay_dir = std::env::var("VERIF_REPLAY_DIR").unwrap_or_else(|_| format!("{}/replays", verif_dir()));
         let _ = std::fs::create_dir_all(&replay_dir);
         let evidence_path =
-            std::env::var("VERIF_EVIDENCE").unwrap_or_else(|_| format!("{}/evidence/{}.json", VERIF_DIR, id));
+            std::env::var("VERIF_EVIDENCE").unwrap_or_else(|_| format!("{}/evidence/{}.json", verif_dir(), id));
         if let Some(p) = std::path::Path::new(&evidence_path).parent() {
             let _ = std::fs::create_dir_all(p);
         }
@@ -822,7 +824,7 @@ pub fn truncate(s: &str, n: usize) -> String {
 }
 
 pub fn load_known() -> Vec<KnownFinding> {
-    let path = std::env::var("VERIF_KNOWN").unwrap_or_else(|_| format!("{}/known_findings.json", VERIF_DIR));
+    let path = std::env::var("VERIF_KNOWN").unwrap_or_else(|_| format!("{}/known_findings.json", verif_dir()));
     let txt = match std::fs::read_to_string(&path) {
         Ok(t) => t,
         Err(_) => return vec![],
